@@ -33,7 +33,8 @@ FINDING_DUPNAME = 'schema-duplicate-output-names'
 # --------------------------------------------------------------------------------------------- alphabets
 def alphabet(name):
     """Argument alphabets of the builder-call state machine (features are dslgen ASTs; indices are 1-based).
-    'wide': 21 features incl. foreign / ill-kinded ones and two right-hand origins, 77 calls;
+    'wide': 25 features incl. foreign / ill-kinded ones, python-equal literals of different kinds and two right-hand
+    origins, 82 calls;
     'core': 12 features, 27 calls (explored two calls deeper)."""
     A, B = g.TABLES['A'], g.TABLES['B']
     rA = g.ref(A, 'r')
@@ -49,9 +50,12 @@ def alphabet(name):
                 g.agg('count', ai), g.agg('sum', af), g.alias(g.op('add', ai, g.lit(1)), 'x'),
                 g.op('add', ai, g.lit(1)), g.op('gt', ai, g.lit(1)), g.op('eq', ai, bi), g.op('eq', ai, ri),
                 g.op('gt', g.agg('count', ai), g.lit(1)), g.op('add', as_, g.lit(1)), g.op('eq', ai, as_),
-                g.op('and', ai, ab), g.alias(g.agg('sum', af), 't')]
-        sels = [[1], [3], [5], [6], [7], [10], [12], [13], [18], [1, 2], [3, 21], [3, 10], [1, 5]]
-        wheres = [4, 9, 14, 15, 17, 7, 19, 20]
+                g.op('and', ai, ab), g.alias(g.agg('sum', af), 't'),
+                # literals whose python values are equal (and hash equal) although their kinds differ: 1 / True (above)
+                # / 1.0 - a constant is a literal of the kind of ITS python type whatever constants were used before
+                g.lit(1.0), g.op('add', af, g.lit(1.0)), g.op('add', ai, g.lit(True)), g.op('eq', ab, g.lit(True))]
+        sels = [[1], [3], [5], [6], [7], [10], [12], [13], [18], [1, 2], [3, 21], [3, 10], [1, 5], [22], [23], [24]]
+        wheres = [4, 9, 14, 15, 17, 7, 19, 20, 22, 25]
         havings = [14, 17, 7, 15]
         groups = [[1], [3], [13], [10], [5], [7], [1, 3]]
         orders = [[(1, 0)], [(3, 1)], [(10, 0)], [(5, 0)], [(3, 1), (1, 0)], [(7, 0)]]
@@ -212,7 +216,10 @@ class Real:
         from forml.io import dsl
         self.dsl = dsl
         self.al = al
-        self.builder = g.Builder()
+        # literal leaves are spelled the documented way, as plain python constants the DSL converts itself (the
+        # code -> spec direction, g.build, spells them as explicit dsl.Literal instances); a worker replays thousands of
+        # transitions in one interpreter: the outcome of a call must not depend on the constants used before
+        self.builder = g.Builder(implicit=True)
         self.feats = {}
         self.objs = {(): self.builder.source(al['start'][0])}
         self.others = [self.builder.source(o) for o in al['others']]
@@ -249,6 +256,8 @@ class Real:
             terms = []
             for o in al['orders'][a - 1]:
                 feature = self.feat(o['x'])
+                if not isinstance(feature, self.dsl.Feature):
+                    feature = self.dsl.Literal(feature)  # ordering terms are documented to take features, not constants
                 if self.spelling % 3 == 0:
                     terms.append((feature, o['dir']))
                 elif self.spelling % 3 == 1:
